@@ -1,4 +1,4 @@
-//@unit U19 props=C19 rlimit=100 NetcodeServer::handle_connection_request (renetcode/src/server.rs)
+//@unit U19 props=C04,C05,C10,C19 rlimit=100 NetcodeServer::{handle_connection_request, find_or_add_connect_token_entry, process_packet_internal} (renetcode/src/server.rs)
 #![feature(allocator_api)]
 #![allow(unused_imports, dead_code, unused_variables, unused_mut)]
 use vstd::prelude::*;
@@ -57,6 +57,12 @@ impl From<TokenGenerationError> for NetcodeError {
 //@extract enum renetcode/src/server.rs ServerResult
 //@extract struct renetcode/src/server.rs NetcodeServer
 
+pub uninterp spec fn challenge_authentic(token_data: [u8; 300], token_sequence: u64, key: [u8; 32], client_id: u64, user_data: [u8; 256]) -> bool;
+/// some challenge this key sealed names exactly this client id and user data
+pub open spec fn issued_challenge(key: [u8; 32], client_id: u64, user_data: [u8; 256]) -> bool {
+    exists|td: [u8; 300], ts: u64| #[trigger] challenge_authentic(td, ts, key, client_id, user_data)
+}
+pub uninterp spec fn sealed_under(datagram: Seq<u8>, key: [u8; 32]) -> bool;
 pub uninterp spec fn token_authentic(data: [u8; 1024], protocol_id: u64, expire_timestamp: u64, xnonce: [u8; 24], key: [u8; 32]) -> bool;
 
 pub open spec fn id_connected(clients: Seq<Option<Connection>>, id: u64) -> bool {
@@ -84,6 +90,70 @@ pub open spec fn mac_unique(t: Seq<Option<ConnectTokenEntry>>) -> bool {
 pub open spec fn scan_ok(m: Option<&ConnectTokenEntry>, t0: Seq<Option<ConnectTokenEntry>>, k: int, mac: Seq<u8>) -> bool {
     &&& (m matches Some(e) ==> exists|j: int| 0 <= j < k && #[trigger] t0[j] == Some(*e) && e.mac@ == mac)
     &&& (m is None ==> forall|j: int| 0 <= j < k ==> ((#[trigger] t0[j]) matches Some(e) ==> e.mac@ != mac))
+}
+
+/// C10: the connected clients have pairwise distinct client ids and pairwise distinct addresses
+pub open spec fn table_unique(t: Seq<Option<Connection>>) -> bool {
+    forall|i: int, j: int| 0 <= i < t.len() && 0 <= j < t.len() && i != j && (#[trigger] t[i]) is Some && (#[trigger] t[j]) is Some
+        ==> t[i]->Some_0.client_id != t[j]->Some_0.client_id && t[i]->Some_0.addr != t[j]->Some_0.addr
+}
+
+/// slot i holds (id, addr)
+pub open spec fn slot_is(t: Seq<Option<Connection>>, i: int, id: u64, addr: SocketAddr) -> bool {
+    0 <= i < t.len() && (t[i] matches Some(c) && c.client_id == id && c.addr == addr)
+}
+
+/// the same sessions sit in the same slots (per-session bookkeeping such as timers and the replay window may differ)
+pub open spec fn same_sessions(a: Seq<Option<Connection>>, b: Seq<Option<Connection>>) -> bool {
+    &&& a.len() == b.len()
+    &&& forall|i: int| 0 <= i < a.len() ==> ((#[trigger] a[i]) is Some <==> (#[trigger] b[i]) is Some)
+    &&& forall|i: int| 0 <= i < a.len() && (#[trigger] a[i]) is Some ==> a[i]->Some_0.client_id == b[i]->Some_0.client_id && a[i]->Some_0.addr == b[i]->Some_0.addr
+            && a[i]->Some_0.send_key == b[i]->Some_0.send_key && a[i]->Some_0.receive_key == b[i]->Some_0.receive_key
+}
+
+/// same sessions except slot k
+pub open spec fn same_sessions_but(a: Seq<Option<Connection>>, b: Seq<Option<Connection>>, k: int) -> bool {
+    &&& a.len() == b.len()
+    &&& forall|i: int| 0 <= i < a.len() && i != k ==> ((#[trigger] a[i]) is Some <==> (#[trigger] b[i]) is Some)
+    &&& forall|i: int| 0 <= i < a.len() && i != k && (#[trigger] a[i]) is Some ==> a[i]->Some_0.client_id == b[i]->Some_0.client_id && a[i]->Some_0.addr == b[i]->Some_0.addr
+}
+
+impl NetcodeServer {
+    /// invariant of the server between public calls
+    pub open spec fn server_wf(&self) -> bool {
+        &&& mac_unique(self.connect_token_entries@)
+        &&& table_unique(self.clients@)
+        // a half-open session is filed under the address it came from
+        &&& forall|a: SocketAddr| #[trigger] self.pending_clients@.contains_key(a) ==> self.pending_clients@[a].addr == a
+    }
+
+    /// history assumptions (not an invariant a call could establish): representable clock, sequence counters that have not wrapped
+    pub open spec fn counters_ok(&self) -> bool {
+        &&& self.current_time.nanos / 1_000_000_000 <= u64::MAX
+        &&& self.global_sequence < u64::MAX && self.challenge_sequence < u64::MAX
+        &&& forall|a: SocketAddr| #[trigger] self.pending_clients@.contains_key(a) ==> self.pending_clients@[a].sequence < u64::MAX
+    }
+}
+
+pub mod addr_map_lemmas {
+use vstd::prelude::*;
+use std::net::SocketAddr;
+verus! {
+/// two maps with the same domain that agree once key `id` is dropped agree on every other key (frame of HashMap::get_mut)
+pub broadcast proof fn lemma_same_but_one_addr<V>(a: Map<SocketAddr, V>, b: Map<SocketAddr, V>, m2: Map<SocketAddr, V>, id: SocketAddr)
+    requires
+        #[trigger] vstd::std_specs::hash::borrowed_key_removed(a, m2, &id),
+        #[trigger] vstd::std_specs::hash::borrowed_key_removed(b, m2, &id),
+        a.dom() == b.dom(),
+    ensures
+        forall|j: SocketAddr| j != id && #[trigger] a.contains_key(j) ==> b[j] == a[j],
+{
+    assert forall|j: SocketAddr| j != id && #[trigger] a.contains_key(j) implies b[j] == a[j] by {
+        assert(a.remove(id)[j] == a[j]);
+        assert(b.remove(id)[j] == b[j]);
+    }
+}
+}
 }
 
 /// number of occupied slots
@@ -115,6 +185,15 @@ impl PrivateConnectToken {
 //@endfn
 }
 impl<'a> Packet<'a> {
+//@stub renetcode/src/packet.rs Packet::decode
+//@ret r
+//@spec
+        // ASSUMED here, proved by the Kani harness decode_hostile_datagram of U11: without a key only a connection request can come out;
+        // a packet other than a request comes out only if the AEAD accepted the datagram under the given key (`sealed_under`, uninterpreted)
+        ensures
+            private_key is None ==> (r matches Ok(sp) ==> sp.1 is ConnectionRequest),
+            r matches Ok(sp) ==> (!(sp.1 is ConnectionRequest) ==> private_key is Some && sealed_under(old(buffer)@, *private_key->Some_0)),
+//@endfn
 //@stub renetcode/src/packet.rs Packet::encode
 //@ret r
 //@spec
@@ -128,6 +207,14 @@ impl<'a> Packet<'a> {
 //@ret r
 //@spec
         ensures r matches Ok(p) ==> (p matches Packet::Challenge { token_sequence, token_data } && token_sequence == challenge_sequence),
+//@endfn
+}
+impl ChallengeToken {
+//@stub renetcode/src/packet.rs ChallengeToken::decode
+//@ret r
+//@spec
+        // ASSUMED (cryptography): opening a sealed challenge token succeeds only for a token this key sealed (`challenge_authentic`, uninterpreted)
+        ensures r matches Ok(t) ==> challenge_authentic(token_data, token_sequence, *challenge_key, t.client_id, t.user_data),
 //@endfn
 }
 impl ReplayProtection {
@@ -145,6 +232,18 @@ impl ReplayProtection {
             r matches Some(c) ==> exists|i: int| 0 <= i < old(clients)@.len() && #[trigger] old(clients)@[i] == Some(*c) && c.client_id == client_id
                 && final(clients)@ == old(clients)@.update(i, Some(*final(c))),
 //@endfn
+//@stub renetcode/src/server.rs ::find_client_slot_by_id
+//@ret r
+//@spec
+        ensures r is Some <==> id_connected(clients@, client_id),
+//@endfn
+/// rule D19 -- ASSUMED: `self.clients.iter().position(|c| c.is_none())`
+#[verifier::external_body]
+pub fn first_free_slot_unverified(clients: &Box<[Option<Connection>]>) -> (r: Option<usize>)
+    ensures
+        r matches Some(i) ==> i < clients@.len() && clients@[i as int] is None,
+        r is None ==> forall|i: int| 0 <= i < clients@.len() ==> (#[trigger] clients@[i]) is Some,
+{ unimplemented!() }
 //@stub renetcode/src/server.rs ::find_client_mut_by_addr
 //@ret r
 //@spec
@@ -192,8 +291,42 @@ impl NetcodeServer {
 //@fn renetcode/src/server.rs NetcodeServer::handle_connection_request
 //@ret r
 //@specfile contracts/shared/NetcodeServer.handle_connection_request.spec
+//@closure 1 -> (c: Connection) ensures c.addr == addr && c.sequence == 0 && c.client_id == connect_token.client_id
 //@cut /let in_host_list = connect_token$/ .. /\.any\(\|addr\| self\.public_addresses\.contains\(&addr\)\);/ => let in_host_list = host_in_list_unverified(&connect_token.server_addresses, &self.public_addresses);
 //@cut /if self\.clients\.iter\(\)\.flatten\(\)\.count\(\) >= self\.max_clients \{/ .. /if self\.clients\.iter\(\)\.flatten\(\)\.count\(\) >= self\.max_clients \{/ => if connected_count_unverified(&self.clients) >= self.max_clients {
+//@endfn
+
+//@fn renetcode/src/server.rs NetcodeServer::process_packet_internal
+//@ret r
+//@specfile contracts/shared/NetcodeServer.process_packet_internal.spec
+//@attr #[verifier::loop_isolation(false)]
+//@entry
+        let ghost s0 = *self;
+        proof { broadcast use addr_map_lemmas::lemma_same_but_one_addr; }
+//@before /return Ok\(ServerResult::ClientDisconnected \{/
+                        proof {
+                            let k = slot as int;
+                            assert(slot_is(s0.clients@, k, client_id, addr));
+                            assert(self.clients@[k] is None);
+                            assert(same_sessions_but(s0.clients@, self.clients@, k));
+                        }
+//@after /if let Some\(pending\) = self\.pending_clients\.get_mut\(&addr\) \{/
+            proof {
+                assert(vstd::std_specs::hash::borrowed_key_removed(s0.pending_clients@, s0.pending_clients@.remove(addr), &addr));
+                assert(*pending == s0.pending_clients@[addr]);
+            }
+//@before /return Ok\(ServerResult::ClientConnected \{/
+                            proof {
+                                let k = client_index as int;
+                                assert(s0.clients@[k] is None);
+                                assert(slot_is(self.clients@, k, client_id, addr));
+                                assert(same_sessions_but(s0.clients@, self.clients@, k));
+                                assert(challenge_authentic(token_data, token_sequence, s0.challenge_key, client_id, user_data));
+                                assert(issued_challenge(s0.challenge_key, client_id, user_data));
+                                assert(s0.pending_clients@.contains_key(addr));
+                                assert(s0.pending_clients@[addr].client_id == client_id);
+                            }
+//@cut /match self\.clients\.iter\(\)\.position\(\|c\| c\.is_none\(\)\) \{/ .. /match self\.clients\.iter\(\)\.position\(\|c\| c\.is_none\(\)\) \{/ => match first_free_slot_unverified(&self.clients) {
 //@endfn
 }
 
